@@ -126,6 +126,35 @@ def digest(s: str) -> str:
 # ------------------------------------------------------------------------------------------------
 # (a) purity
 # ------------------------------------------------------------------------------------------------
+def api_built(name: str):
+    """documents assembled through the construction API (nodes that never went through from_cst: their
+    layout fields are unset and decided while rendering)"""
+    from nix_manipulator import parse
+    from nix_manipulator.expressions.identifier import Identifier
+    from nix_manipulator.expressions.list import NixList
+    from nix_manipulator.expressions.set import AttributeSet
+    from nix_manipulator.expressions.with_statement import WithStatement
+
+    if name == "with-list":
+        src = parse("{\n  a = 1;\n}\n")
+        src["buildInputs"] = WithStatement(environment=Identifier(name="pkgs"),
+                                           body=NixList(value=[Identifier(name="a"), Identifier(name="b")]))
+        return src
+    if name == "lists":
+        return AttributeSet.from_dict({"k": [1, 2], "n": {"l": [[1], [2, 3]], "e": []}, "s": ["a", "b"]})
+    if name == "nested":
+        return AttributeSet.from_dict({"a": {"b": {"c": 1, "d": [1]}}, "z": None, "t": True})
+    if name == "parsed-plus":
+        src = parse("{ pkgs }:\n{\n  a = [ 1 2 ];\n}\n")
+        src["b"] = [1, [2, 3]]
+        src["c"] = {"x": [1]}
+        return src
+    raise KeyError(name)
+
+
+API_DOCS = ["API:with-list", "API:lists", "API:nested", "API:parsed-plus"]
+
+
 class Purity:
     def __init__(self, ctx: fw.Ctx, ex):
         self.ctx, self.ex = ctx, ex
@@ -166,14 +195,14 @@ class Purity:
         ctx = self.ctx
         found: list[dict] = []
         try:
-            src = parse(text)
+            src = api_built(text[4:]) if text.startswith("API:") else parse(text)
         except RecursionError:
             ctx.count("skipped:parse-recursion")
             return found
         except Exception as exc:  # noqa: BLE001
             ctx.count("skipped:parse-" + type(exc).__name__)
             return found
-        if src.contains_error:
+        if getattr(src, "contains_error", False):
             ctx.count("pass-through-documents")
         ts = H.TreeState(src)
         start = len(hooks.records)
@@ -356,6 +385,32 @@ def file_history(ctx: fw.Ctx, docs: list[str]):
                 ctx.fail({"clause": "file-history", "via": "parse_file" if got != want else "source_path"},
                          {"doc": t, "previous": docs[i - 1] if i else None, "expected": want, "got": got if got != want else got2},
                          "reading a path whose content was replaced gives a result that depends on what the path held before")
+                break
+        # a file the library rejects, then a document with a relative path literal: it resolves against the
+        # working directory as before (nothing of the rejected file stays behind)
+        probe = "{ p = ./x.nix; }"
+        try:
+            before = str(parse(probe)["p"].resolved_path())
+        except Exception as exc:  # noqa: BLE001
+            before = exc_class(exc)
+        sub = tmp / "rejected"
+        sub.mkdir(exist_ok=True)
+        for bad in ("{ url = http://example.org/x.tar.gz; }\n", "{ a.b = 1; a.b = 2; }\n", "{ a = 1;\n"):
+            bp = sub / "bad.nix"
+            bp.write_text(bad, encoding="utf-8")
+            try:
+                parse_file(bp).rebuild()
+            except Exception:  # noqa: BLE001
+                pass
+            try:
+                after = str(parse(probe)["p"].resolved_path())
+            except Exception as exc:  # noqa: BLE001
+                after = exc_class(exc)
+            ctx.count("file-history-rejected")
+            if after != before:
+                ctx.fail({"clause": "file-history", "via": "rejected-file"}, {"doc": probe, "rejected": bad, "expected": before, "got": after},
+                         f"after parse_file() of a file the library rejects ({bad!r}), a path literal of an unrelated "
+                         f"document resolves to {after!r} instead of {before!r}")
                 break
         # edit, save, read again
         for t in docs[:10]:
@@ -831,7 +886,7 @@ def run(ctx: fw.Ctx):
 
     # known findings first (their witnesses are the first templates), then the stream
     pur = Purity(ctx, ex)
-    pur.run_stream(docs)
+    pur.run_stream(API_DOCS + docs)
     ctx.extra["purity_failure_keys"] = dict(sorted(pur.per_key.items()))
 
     det_docs = docs[: 61 + (240 if quick else 1500)]
